@@ -115,13 +115,13 @@ func (e *Eval) Class() string {
 }
 
 func (e *Eval) request(verb string) string {
-	return verb + " " + core.Hex(e.In) + " " + OpsText(e.Ops)
+	return verb + " " + core.Hex(e.In) + " " + ModelOpsText(e.In, e.Ops) // = OpsText unless a selector is a pattern (selre.go)
 }
 
 // ModelChecks are the correspondence checks (tie T2): the whole run and, where the trees can be
 // observed, every intermediate tree.
 func (e *Eval) ModelChecks(perStep bool) []core.Check {
-	if !AllModelled(e.Ops) {
+	if !AllModelled(e.Ops) || !PatternsModelled(e.In, e.Ops) {
 		return nil
 	}
 	if perStep && !e.Res.NilFile {
